@@ -62,3 +62,121 @@ def run(ctx):
             r.fail(rule, key, 'the sender pads %s chunks (padding_size is non-zero whenever policy and mode are not None) but %s never removes padding: '
                               'the padding bytes stay in the chunk body' % (kind, fn), loc=fb.loc if fb else '')
     r.floor(rule, 'padded_header_kinds', len(padded), 2)
+    chunk_headers(ctx)
+
+
+def _find(sym, pred):
+    """first sub-term of sym satisfying pred"""
+    if isinstance(sym, tuple) and sym:
+        try:
+            if isinstance(sym[0], str) and pred(sym):
+                return sym
+        except (IndexError, TypeError):
+            pass
+        for x in sym:
+            y = _find(x, pred)
+            if y is not None:
+                return y
+    return None
+
+
+def chunk_headers(ctx, rule='chunk-headers'):
+    """Chunker::encode: every chunk gets the caller's request id, sequence number = first + position, the body slice
+    produced by slice::chunks(body size derived from the negotiated chunk size), and the Final flag exactly at position
+    count-1 where count is the length of the very sequence being iterated"""
+    r, db = ctx.r, ctx.db
+    b = db.body('core::comms::chunker::Chunker::encode')
+    if b is None:
+        r.lost(rule, 'Chunker::encode', 'not found'); return
+    F = ctx.facts(b)
+    news = [c for c in b.calls() if c.callee.endswith('MessageChunk::new')]
+    if len(news) < 2:
+        r.lost(rule, 'MessageChunk::new', 'expected the multi-chunk and the single-chunk construction, found %d' % len(news)); return
+    seq_p = b.local_by_name('sequence_number'); rid_p = b.local_by_name('request_id'); mcs_p = b.local_by_name('max_chunk_size')
+    if not (seq_p and rid_p and mcs_p):
+        r.lost(rule, 'params', 'sequence_number / request_id / max_chunk_size parameters not found'); return
+    seq_p, rid_p, mcs_p = ('place', seq_p[0], ()), ('place', rid_p[0], ()), ('place', mcs_p[0], ())
+    n = 0
+    for c in news:
+        a = [F.sym_operand(x) for x in c.args]
+        item = _find(a[0], lambda s: s[0] == 'proj' and s[2] == '@Some' and s[1][0] == 'call' and s[1][1].endswith('Iterator::next'))
+        looped = item is not None
+        tag = 'multi' if looped else 'single'
+        n += 1
+        # request id
+        if a[1] == rid_p:
+            r.ok(rule, tag + ':request-id', 'chunk carries the request_id argument', loc=c.loc)
+        else:
+            r.fail(rule, tag + ':request-id', 'chunk request id is %s, not the request_id of the message' % fmt_sym(b, a[1])[:80], loc=c.loc)
+        if not looped:
+            if a[0] == seq_p:
+                r.ok(rule, tag + ':sequence', 'single chunk uses the first sequence number', loc=c.loc)
+            else:
+                r.fail(rule, tag + ':sequence', 'single chunk sequence number is %s' % fmt_sym(b, a[0])[:80], loc=c.loc)
+            if 'Final' in fmt_sym(b, a[3]) and 'Intermediate' not in fmt_sym(b, a[3]):
+                r.ok(rule, tag + ':final', 'the only chunk is Final', loc=c.loc)
+            else:
+                r.fail(rule, tag + ':final', 'the only chunk of a message is not marked Final (%s)' % fmt_sym(b, a[3])[:60], loc=c.loc)
+            continue
+        idx = ('proj', ('proj', item, '.0'), '.0')
+        # sequence number = sequence_number + idx as u32
+        s0 = a[0]
+        if s0[0] == 'proj' and s0[2] == '.0':
+            s0 = s0[1]
+        okseq = (s0[0] == 'bin' and s0[1] in ('Add', 'AddWithOverflow') and
+                 ((s0[2] == seq_p and s0[3][0] == 'cast' and s0[3][1] == idx) or (s0[3] == seq_p and s0[2][0] == 'cast' and s0[2][1] == idx)))
+        okseq = okseq or (s0[0] == 'call' and s0[1].endswith('wrapping_add') and s0[2][0] == seq_p and s0[2][1][0] == 'cast' and s0[2][1][1] == idx)
+        if okseq:
+            r.ok(rule, tag + ':sequence', 'sequence number = sequence_number + position of the chunk', loc=c.loc)
+        else:
+            r.fail(rule, tag + ':sequence', 'chunk sequence number is %s: not first + position, the numbers are not consecutive' % fmt_sym(b, a[0])[:100], loc=c.loc)
+        # the iterated sequence
+        enum = [e for e in b.calls() if e.callee.endswith('Iterator::enumerate')]
+        src = F.sym_operand(enum[0].args[0]) if enum else None
+        chunks = _find(src, lambda s: s[0] == 'call' and s[1].endswith('slice::chunks')) if src is not None else None
+        if chunks is None:
+            r.lost(rule, tag + ':source', 'the loop does not iterate enumerate(slice::chunks(..))'); continue
+        # body = the item of the iteration
+        body = a[5]
+        if _find(body, lambda s: s == ('proj', ('proj', item, '.0'), '.1')) is not None:
+            r.ok(rule, tag + ':body', 'chunk body is the slice yielded by the iteration', loc=c.loc)
+        else:
+            r.fail(rule, tag + ':body', 'chunk body is %s, not the slice of this iteration' % fmt_sym(b, body)[:80], loc=c.loc)
+        # slice size derives from the negotiated size
+        size = chunks[2][1] if len(chunks[2]) > 1 else None
+        bs = _find(size, lambda s: s[0] == 'call' and s[1].endswith('MessageChunk::body_size_from_message_size')) if size is not None else None
+        if bs is not None and len(bs[2]) == 3 and bs[2][2] == mcs_p:
+            r.ok(rule, tag + ':size', 'bodies are cut at body_size_from_message_size(.., max_chunk_size)', loc=c.loc)
+        else:
+            r.fail(rule, tag + ':size', 'the body size the data is cut at does not derive from max_chunk_size: %s' % (fmt_sym(b, size)[:100] if size is not None else '?'), loc=c.loc)
+        # final flag
+        fl = a[3]
+        defs = b.defs().get(fl[1], []) if fl[0] == 'place' and not fl[2] else []
+        finals = [(d[1], d[2]) for d in defs if d[0] == 'stmt' and d[3][0] == 'agg' and d[3][3] == 'Final']
+        inter = [(d[1], d[2]) for d in defs if d[0] == 'stmt' and d[3][0] == 'agg' and d[3][3] == 'Intermediate']
+        if not finals or not inter or len(finals) + len(inter) != len(defs):
+            r.fail(rule, tag + ':final', 'the final flag of a multi-chunk message is not chosen between Final and Intermediate per chunk', loc=c.loc); continue
+        def last_test(bb, si, op):
+            for lit, e in F.literals_at(bb, si):
+                if lit[0] == 'cmp' and lit[1] == op and lit[2] == idx:
+                    rhs = lit[3]
+                    if rhs[0] == 'proj' and rhs[2] == '.0':
+                        rhs = rhs[1]
+                    if rhs[0] == 'bin' and rhs[1] in ('Sub', 'SubWithOverflow') and F.const_int(rhs[3]) == 1:
+                        cnt = rhs[2]
+                        if cnt == ('len', chunks) or cnt == ('len', ('ref', chunks)):
+                            return 'count = len of the iterated chunks'
+                        dc = cnt if cnt[0] == 'call' and cnt[1].endswith('div_ceil') else None
+                        if dc is not None and len(dc[2]) == 2 and dc[2][1] == size:
+                            return 'count = div_ceil(len, body size)'
+                        return None
+            return None
+        w1 = [last_test(bb, si, 'eq') for bb, si in finals]
+        w2 = [last_test(bb, si, 'ne') for bb, si in inter]
+        if all(w1) and all(w2):
+            r.ok(rule, tag + ':final', 'Final exactly when position == count - 1 (%s), Intermediate otherwise' % w1[0], loc=c.loc)
+        else:
+            r.fail(rule, tag + ':final', 'the Final flag is not tied to `position == count - 1` with count the length of the iterated chunk sequence: '
+                   'for some message sizes no chunk (or a middle chunk) is marked final', loc=c.loc)
+    r.count('chunk_constructions', n)
+    r.floor(rule, 'chunk_constructions', n, 2)
